@@ -410,6 +410,20 @@ def json_exception_cell(cell):
             except Exception:  # noqa: BLE001
                 out = "error"
             res["outcomes"].add(("json-exception", out if out in ("old", "new", "error") else "hybrid"))
+            if k % 3 == 0:
+                # the caller catches the error and simply repeats the call: a complete save, so the folder must restore as the new state
+                try:
+                    with quiet():
+                        live.create_checkpoint(str(w / "F"))
+                    out2 = classify(components(C.restore(w / "F", cfg)), old, new)
+                except Exception as e2:  # noqa: BLE001
+                    out2 = f"error:{type(e2).__name__}"
+                res["evaluations"] += 1
+                if out2 != "new":
+                    key = "json-backend:retry-after-failed-save-not-new"
+                    if sum(1 for x in res["violations"] if x["key"] == key) < 1:
+                        res["violations"].append({"key": key, "what": f"[prev={prev_kind}] after an exception at line event {k} ({where[0]}) the same create_checkpoint() call was repeated and completed, but the folder restores as {out2}",
+                                                  "case": {"mode": "json-exception", "cfg": cfg, "prev": prev_kind, "new_batches": nb, "k": k}})
             if out not in ("old", "new", "error"):
                 res["nontrivial"] += 1
                 key = f"json-backend:non-atomic:exception:{boundary(out)}" if conforms(out) else f"json-backend:unexpected:exception:{out}"
